@@ -40,6 +40,9 @@ func confConfigs() []confCfg {
 	for _, sm := range []hlsl.ShaderModel{hlsl.ShaderModel5_1, hlsl.ShaderModel6_0, hlsl.ShaderModel6_6} {
 		for mask := 0; mask < 8; mask++ {
 			sm, mask := sm, mask
+			if sm != hlsl.ShaderModel5_1 && mask != 0 && mask != 7 {
+				continue // the full option cube for SM 5.1; all-off and all-on for the others
+			}
 			out = append(out, confCfg{
 				name: fmt.Sprintf("sm%s_ri%d_lb%d_zi%d", sm.ProfileSuffix(), mask&1, mask>>1&1, mask>>2&1),
 				mod: func(o *hlsl.Options) {
